@@ -70,7 +70,7 @@ def model_part(v, tier, invariants, clauses, props, variants=("A", "B", "C"), se
                                        seed=vseed() + 600 + seed_off + vi)
         v.add_tlc(gres, "instance generation (Gen_Dcop) for Dsa.tla variant %s" % variant)
         if quick:
-            insts = insts[vi::len(variants)][:4]
+            insts = AM.spread(insts, 1, 5, offset=vi * 3)
         for i in insts:
             i["variant"] = variant
             i["_key"] = {"variant": variant}
